@@ -12,6 +12,10 @@
 (*   collect       the whole yielded list: length, two further None, size  *)
 (*                 hint of take, channel order of interleaved samples      *)
 (*                 (C05); the frames and the pulls (C04)                   *)
+(*   collect *_clone  the iterator is cloned after k items; the clone and   *)
+(*                 the original each yield exactly the remaining items     *)
+(*                 (lengths, the further None: C05; frames, pulls: C04)    *)
+(*   clone         the signal is replaced by its clone: nothing changes    *)
 (*   drop / resume a borrowed source continues at Pulls + 1 (C04), with    *)
 (*                 exact exhaustion flags and silence after its end (C05)  *)
 (* State per execution = (term and sources = the reset line, n outputs so  *)
@@ -80,24 +84,34 @@ JIsExh ==
    ok05 |-> Ev.o.ok /\ Ev.r = [k |-> "val", v |-> ExhDen(X, T, n)],
    undef |-> FALSE, sync |-> TRUE, n |-> n, rs |-> rs, gone |-> FALSE]
 
+\* `root = root.clone()`: the clone stands exactly where the original stood (state unchanged); a term
+\* with a borrowed leaf cannot be cloned (`&mut S` is not Clone): not judged
+JClone ==
+  [ok04 |-> Ev.o.ok /\ Ev.r = [k |-> "unit"] /\ Ev.o.pulls = ExpPulls(n, rs), ok05 |-> TRUE,
+   undef |-> ByRefsOf(T) # {}, sync |-> TRUE, n |-> n, rs |-> rs, gone |-> FALSE]
+
 JDrop ==
   [ok04 |-> Ev.o.pulls = ExpPulls(n, rs), ok05 |-> TRUE, undef |-> FALSE, sync |-> TRUE, n |-> n, rs |-> rs, gone |-> TRUE]
 
 JCollect ==
   LET a == Ev.a
-      c == a.consumer
+      isClone == a.consumer \in {"take_clone", "ue_clone", "il_clone"}
+      c == CASE a.consumer = "take_clone" -> "take" [] a.consumer = "ue_clone" -> "ue"
+             [] a.consumer = "il_clone" -> "il" [] OTHER -> a.consumer
       finite == DLen(X, T) < Inf
       wellformed == /\ c \in {"take", "ue", "il", "lift"}
                     /\ (c # "take" => finite)
                     /\ (c = "lift" => n = 0 /\ ~Rec[r0].o.built /\ a.j \in SrcsOf(T))
+                    /\ (isClone => ~a.byref /\ ByRefsOf(T) = {})        \* `&mut S` is not Clone
       cnt == IF c = "take" THEN a.n ELSE UeCount(X, T, n)                \* frames the root delivers
       exp == IF c = "il" THEN IlItems(X, T, F, n) ELSE DenRange(X, T, F, n, cnt)
+      \* *_clone: got = the k items before the clone was taken, then what the CLONE yielded -- judged
+      \* exactly like the list of the plain consumer; o.tail = what the original yielded after that
       got == Ev.r.v
       isItems == Ev.o.ok /\ Ev.r.k = "items"
       lenOK == isItems /\ Len(got) = Len(exp)
       common == IF isItems THEN MinI(Len(got), Len(exp)) ELSE 0
       prefixOK == IF lenOK THEN got = exp ELSE \A i \in 1..common : got[i] = exp[i]
-      inspCalls == InspCount(n, cnt)
       \* interleaved samples, frame by frame: a chunk that is a permutation of the expected frame is a
       \* channel-order error (C05), any other difference is a wrong frame (C04)
       frames == DenRange(X, T, F, n, cnt)
@@ -105,16 +119,32 @@ JCollect ==
       sameBag(x, y) == \A i \in 1..Len(x) : Cardinality({k \in 1..Len(x) : x[k] = x[i]}) = Cardinality({k \in 1..Len(y) : y[k] = x[i]})
       ilValueOK == (c = "il" /\ lenOK /\ got # exp) => \A i \in 1..cnt : chunk(i) # frames[i] => sameBag(chunk(i), frames[i])
       ilOrderOK == (c = "il" /\ lenOK /\ got # exp) => \A i \in 1..cnt : chunk(i) # frames[i] => ~sameBag(chunk(i), frames[i])
+      \* the clone point: hk items were pulled before it (fewer than asked for only if the stream ended),
+      \* = fk frames of the root
+      hk == IF isClone /\ isItems THEN Ev.o.head ELSE 0
+      fk == IF ~isClone THEN cnt ELSE MinI(cnt, IF c = "il" THEN IlFramesFor(hk, X.ch) ELSE hk)
+      headOK == hk <= Len(got) /\ hk <= a.k /\ (hk < a.k => Len(got) = hk)
+      cloneTail == CloneTail(got, hk)
+      tailLenOK == Len(Ev.o.tail) = Len(cloneTail)                       \* the original yields as many ...
+      tailSame == tailLenOK => Ev.o.tail = cloneTail                     \* ... and the same items as its clone
+      \* original and clone share the instrumentation: both sets of pulls / closure calls are counted
+      expPulls == [j \in 1..NSrc |-> 2 * Pulls(T, j, n + cnt) - Pulls(T, j, n + fk) + rs[j]]
+      inspCalls == 2 * InspCount(n, cnt) - InspCount(n, fk)
   IN IF ~wellformed \/ (finite /\ a.cap < Len(exp))
        THEN [ok04 |-> TRUE, ok05 |-> TRUE, undef |-> TRUE, sync |-> TRUE, n |-> n, rs |-> rs, gone |-> TRUE]
      ELSE
        [ok04  |-> /\ isItems
                   /\ (c # "il" => prefixOK) /\ ilValueOK                 \* the frames themselves
-                  /\ (lenOK => Ev.o.pulls = ExpPulls(n + cnt, rs) /\ Ev.o.insp_calls = inspCalls),
+                  /\ (isClone /\ c # "il" => tailSame)
+                  /\ (lenOK /\ (isClone => headOK /\ tailLenOK) => Ev.o.pulls = expPulls /\ Ev.o.insp_calls = inspCalls),
         ok05  |-> /\ lenOK                                               \* exactly Len / n / frames x channels items
                   /\ Ev.o.after = << FALSE, FALSE >> /\ ~Ev.o.capped     \* then None for good
                   /\ (c = "take" => Ev.o.hint = << a.n, a.n, a.n >>)     \* ExactSizeIterator
-                  /\ ilOrderOK,                                         \* channel order
+                  /\ ilOrderOK                                          \* channel order
+                  /\ (isClone => /\ headOK /\ tailLenOK                 \* exactly the remaining items, both
+                                 /\ Ev.o.after2 = << FALSE, FALSE >>
+                                 /\ (c = "il" => tailSame)
+                                 /\ (c = "take" => Ev.o.chint = << a.n - hk, a.n - hk, a.n - hk >>)),
         undef |-> ~(isItems /\ prefixOK) /\ \E i \in 1..cnt : ~DenDefined(X, T, F, n + i),
         sync  |-> lenOK,                     \* otherwise the position of the real signal is unknown
         n |-> n + cnt, rs |-> rs, gone |-> ~a.byref]
@@ -131,11 +161,12 @@ JResume ==
                /\ (k > SrcLen(X, j) => frameOK),
       undef |-> FALSE, sync |-> TRUE, n |-> n, rs |-> rs1, gone |-> TRUE]
 
-Known == \/ (~gone /\ Ev.ev \in {"next", "is_exhausted", "drop", "collect"})
+Known == \/ (~gone /\ Ev.ev \in {"next", "is_exhausted", "drop", "collect", "clone"})
          \/ (gone /\ Ev.ev = "resume")
 Judge == CASE Ev.ev = "next" -> JNext
            [] Ev.ev = "is_exhausted" -> JIsExh
            [] Ev.ev = "drop" -> JDrop
+           [] Ev.ev = "clone" -> JClone
            [] Ev.ev = "collect" -> JCollect
            [] Ev.ev = "resume" -> JResume
 
